@@ -43,7 +43,15 @@ def main():
         if a.replay:
             return mod.replay(a.replay)
         chk = vlib.Check(a.prop, a.tier, seed)
-        return mod.run(chk)
+        try:
+            return mod.run(chk)
+        except Exception:
+            # the machinery itself failed on this tree (e.g. a translator or parser met
+            # code it cannot handle): the property is no longer shown to hold
+            tb = traceback.format_exc()
+            sys.stderr.write(tb)
+            chk.build_problems.append(("the check machinery raised an exception before reaching a verdict", tb[-1500:]))
+            return chk.finish()
     finally:
         vlib.cleanup()
 
